@@ -72,8 +72,13 @@ void harness(void) {
     double v; memcpy(&v, raw, 8); hh = carquet_xxhash64(raw, 8, 0); carquet_bloom_filter_insert_double(f, v);
     SYMX_ASSERT(carquet_bloom_filter_check_double(f, v), "typed check finds typed insert");
   #else
-    hh = carquet_xxhash64(raw, 5, 0); carquet_bloom_filter_insert_bytes(f, raw, 5);
-    SYMX_ASSERT(carquet_bloom_filter_check_bytes(f, raw, 5), "typed check finds typed insert");
+    /* byte strings of length 0 (the empty string), 1, 4 and 5 (fork; exact-size heap copy: no read behind the value) — the other lengths are E1's */
+    static const size_t lens_[4] = {0, 1, 4, 5};
+    size_t bl = lens_[symx_choice(4, "byte string length")];
+    uint8_t* bs = malloc(bl ? bl : 1); symx_assume(bs != NULL); memcpy(bs, raw, bl);
+    hh = carquet_xxhash64(bs, bl, 0); carquet_bloom_filter_insert_bytes(f, bs, bl);
+    SYMX_ASSERT(carquet_bloom_filter_check_bytes(f, bs, bl), "typed check finds typed insert");
+    free(bs);
   #endif
     carquet_bloom_filter_insert_hash(g, hh);
     const uint8_t* df = carquet_bloom_filter_data(f); const uint8_t* dg = carquet_bloom_filter_data(g);
